@@ -9,7 +9,7 @@ Definition OptP {A} (P : A -> Prop) (o : option A) : Prop := match o with Some x
 
 Section PyInd.
   Variable P : pyexpr -> Prop.
-  Hypothesis HPName : forall (id : string), P (PName id).
+  Hypothesis HPName : forall (id : string) (loc : bool), P (PName id loc).
   Hypothesis HPNum : forall (isint : bool) (r : string), P (PNum isint r).
   Hypothesis HPConst : forall (r : string), P (PConst r).
   Hypothesis HPStr : forall (r : string) (raw : string) (parsed : option pyexpr), OptP P parsed -> P (PStr r raw parsed).
@@ -49,7 +49,7 @@ Section PyInd.
       match l with [] => Forall_nil P | x :: r => Forall_cons x (pyexpr_ind' x) (fl r) end in
     let fo := fun (o : option pyexpr) => match o return OptP P o with Some x => pyexpr_ind' x | None => I end in
     match e with
-    | PName id => HPName id 
+    | PName id loc => HPName id loc 
     | PNum isint r => HPNum isint r 
     | PConst r => HPConst r 
     | PStr r raw parsed => HPStr r raw parsed (fo parsed)
